@@ -17,8 +17,9 @@
    for both readers, with the two classes excluded through [ops_ok] when fx = false. *)
 From Coq Require Import List NArith Bool.
 From NV Require Import Bgzf.Vpos Bgzf.VposProofs Bgzf.Gzi Bgzf.ReaderOps Bgzf.FlatRef Bgzf.ReaderOpsProofs
-  Bgzf.ReaderTellProofs Bgzf.WriterTell.
-From NV Require Bgzf.Frame Bgzf.Writer Bgzf.WriterTellProofs.
+  Bgzf.ReaderTellProofs Bgzf.WriterTell Bgzf.GziBs Bgzf.GziBsProofs Bgzf.SeekBytes.
+From NV Require Bgzf.Frame Bgzf.Writer Bgzf.WriterTellProofs Bgzf.WriterTellRows Bgzf.Reader Bgzf.Inflate
+  Bgzf.SeekBytesProofs Bgzf.SeekBytesBoundary.
 Import ListNotations.
 Open Scope N_scope.
 
@@ -233,3 +234,138 @@ Example c02_example_repaired_witnesses :
   = [ (OBytes (Ok [104; 101; 108; 108; 111]), Ok (pack 33 0));
       (OBytes (Ok []), Ok (pack 33 0)) ].
 Proof. exact repaired_witnesses. Qed.
+
+(* ---- deepening wave 5 ------------------------------------------------------------------ *)
+
+(* EXACT slice::partition_point.  GziBs.partition_point_bs is core::slice's binary search (size /
+   half loop, final probe of `base`); on every slice partitioned by the predicate it returns what
+   the prefix form used by the theorems above returns, so those keep their statements ... *)
+Theorem c02_partition_point_exact : forall (A : Type) (p : A -> bool) (l : list A),
+  partitioned p l -> partition_point_bs p l = partition_point p l.
+Proof. exact (@partition_point_bs_sorted). Qed.
+Print Assumptions c02_partition_point_exact.
+
+(* ... in particular Index::query on every index sorted by uncompressed offset (repeated offsets
+   allowed), and the history runner over the index of the file *)
+Theorem c02_gzi_query_exact_sorted : forall idx pos,
+  sorted_u idx -> gzi_query_bs idx pos = gzi_query idx pos.
+Proof. exact gzi_query_bs_sorted. Qed.
+Print Assumptions c02_gzi_query_exact_sorted.
+
+Theorem c02_run_exact_sorted : forall fx f idx ops st,
+  sorted_u idx -> run_bs fx f idx st ops = run fx f idx st ops.
+Proof. exact run_bs_sorted. Qed.
+Print Assumptions c02_run_exact_sorted.
+
+(* the main theorem and the gzi theorem restated over the exact query (what the driver runs) *)
+Theorem c02_reader_refines_flat_exact_gzi : forall f ops,
+  wf f -> total_csize f <= MAX_COMPRESSED_POSITION -> ops_valid f ops ->
+  exists fl, frun f (mkF 0 0) ops = Some fl /\
+             Forall2 (agrees f) (run_bs true f (gzi_of f) (init f) ops) fl.
+Proof. exact reader_refines_flat_bs. Qed.
+Print Assumptions c02_reader_refines_flat_exact_gzi.
+
+Theorem c02_gzi_exact : forall f p, wf f -> total_csize f <= MAX_COMPRESSED_POSITION ->
+  p <= total_dlen f /\ (p = total_dlen f -> forall q b, f = q ++ [b] -> flen b < 65536) ->
+  exists v, gzi_query_bs (gzi_of f) p = Ok v /\ denote f v = Some p.
+Proof. exact gzi_lands_bs. Qed.
+Print Assumptions c02_gzi_exact.
+
+(* ANY index (unsorted, duplicated, hostile values): the entry the binary search selects is an
+   entry of the index (or the implicit (0,0)) at or before pos, so `pos - uncompressed_pos` never
+   underflows (no panic), and the answer is that entry's block offset with the relative offset, or
+   InvalidData exactly when the relative offset does not fit u16 / the block offset 48 bits *)
+Theorem c02_gzi_query_any_index : forall idx pos,
+  let e := gzi_entry_bs idx pos in
+  (e = (0, 0) \/ In e idx) /\ snd e <= pos /\
+  gzi_query_bs idx pos =
+    if (pos - snd e <? 65536) && (fst e <=? MAX_COMPRESSED_POSITION)
+    then Ok (pack (fst e) (pos - snd e)) else Err InvalidData.
+Proof. exact gzi_query_bs_spec. Qed.
+Print Assumptions c02_gzi_query_any_index.
+
+Theorem c02_gzi_query_no_panic : forall idx pos, gzi_query_bs idx pos <> Panic.
+Proof. exact gzi_query_bs_no_panic. Qed.
+Print Assumptions c02_gzi_query_no_panic.
+
+(* the two forms do differ on an unsorted index (so the distinction is not vacuous) *)
+Example c02_example_unsorted_gzi :
+  gzi_query [(100, 50); (200, 10); (300, 20)] 30 = Ok (pack 0 30) /\
+  gzi_query_bs [(100, 50); (200, 10); (300, 20)] 30 = Ok (pack 300 10).
+Proof. exact bs_differs_unsorted. Qed.
+
+(* WRITER, LIST FORM: every row of wtell_run -- one per position the writer tells, before the
+   first call and after each -- is (Ok v, seek = Ok v, read-to-end = the accepted bytes from the
+   index of the next byte on); the script does not panic; there is one row per call plus one. *)
+Theorem c02_writer_tell_rows : forall (deflate : N -> list N -> list N) (lvl : N),
+  (forall x, Frame.lenN x <= Writer.MAX_BUF_SIZE ->
+             Frame.lenN (deflate 0 x) <= Writer.MAX_COMPRESSED_SIZE) ->
+  forall ops fin n st obs p,
+  Writer.run_ops deflate lvl Writer.w_init ops = (st, obs, p) ->
+  let stf := wt_finish deflate lvl fin st in
+  Frame.lenN (Writer.w_sink stf) <= Writer.MAX_COMPRESSED_POSITION -> 0 < n ->
+  p = false /\
+  length (wtell_run deflate lvl ops fin n) = S (length ops) /\
+  forall k, (k <= length ops)%nat -> exists v,
+    nth k (wtell_run deflate lvl ops fin n) (Frame.Panic, Unmodelled, Unmodelled)
+    = (Frame.Ok v, Ok v,
+       Ok (skipn (length (Writer.accepted (firstn k ops) (firstn k obs))) (Writer.accepted ops obs))).
+Proof. exact WriterTellRows.writer_tell_rows. Qed.
+Print Assumptions c02_writer_tell_rows.
+
+(* SEEK TO ARBITRARY (HOSTILE) VIRTUAL POSITIONS over the BYTES of the file (any bytes, any v,
+   any previous block), with C01's frame parser, CRC-32 and inflater: seek(v) succeeds if and only
+   if a chain `empty frames*, then a frame with data or fewer than 18 bytes` parses at the block
+   offset of v -- the in-block offset is irrelevant (it is clamped) ... *)
+Theorem c02_seek_succeeds_iff : forall fb b0 v,
+  fst (seek_bytes Inflate.inflate fb b0 v) = Ok v
+  <-> SeekBytesProofs.chain_ok Inflate.inflate (bytes_from fb (vcomp v)).
+Proof. exact (SeekBytesProofs.seek_bytes_ok_iff Inflate.inflate SeekBytesProofs.inflate_len). Qed.
+Print Assumptions c02_seek_succeeds_iff.
+
+(* ... every other seek fails with InvalidData or UnexpectedEof: no panic, fuel never runs out *)
+Theorem c02_seek_total : forall fb b0 v,
+  fst (seek_bytes Inflate.inflate fb b0 v) = Ok v \/
+  fst (seek_bytes Inflate.inflate fb b0 v) = Err InvalidData \/
+  fst (seek_bytes Inflate.inflate fb b0 v) = Err UnexpectedEof.
+Proof. exact (SeekBytesProofs.seek_bytes_total Inflate.inflate SeekBytesProofs.inflate_len). Qed.
+Print Assumptions c02_seek_total.
+
+(* ... and a block offset at or beyond `end of file - 17` is always accepted: the reader then
+   holds an empty block there and tells (c, 0) *)
+Theorem c02_seek_beyond_end : forall fb b0 v,
+  Frame.lenN fb < vcomp v + 18 -> vcomp v <= MAX_COMPRESSED_POSITION ->
+  seek_bytes Inflate.inflate fb b0 v = (Ok v, Ok (pack (vcomp v) 0)).
+Proof. exact (SeekBytesProofs.seek_bytes_beyond_end Inflate.inflate SeekBytesProofs.inflate_len). Qed.
+Print Assumptions c02_seek_beyond_end.
+
+(* on the parsed file: the frame-level seek accepts exactly the block offsets not strictly inside
+   a frame, whatever the in-block offset *)
+Theorem c02_seek_frames_ok_iff : forall fx f st v,
+  snd (seek fx f st v) = Ok v <-> drop_to f 0 (vcomp v) <> None.
+Proof. exact SeekBytesProofs.seek_frames_ok_iff. Qed.
+Print Assumptions c02_seek_frames_ok_iff.
+
+Example c02_example_hostile_seeks :
+  seek_bytes Inflate.inflate Frame.eof_block (mkBlk 0 0 0 0) (pack 0 7) = (Ok (pack 0 7), Ok (pack 28 0)) /\
+  seek_bytes Inflate.inflate Frame.eof_block (mkBlk 0 0 0 0) (pack 5 0) = (Err InvalidData, Ok (pack 0 0)) /\
+  seek_bytes Inflate.inflate Frame.eof_block (mkBlk 0 0 0 0) (pack 11 0) = (Ok (pack 11 0), Ok (pack 11 0)) /\
+  seek_bytes Inflate.inflate Frame.eof_block (mkBlk 0 0 0 0) (pack 4000 9) = (Ok (pack 4000 9), Ok (pack 4000 0)).
+Proof. exact SeekBytesProofs.seek_bytes_examples. Qed.
+
+(* the byte-level seek and the frame-level seek of the main theorems are the same function wherever
+   the latter is defined: for bytes that encode the frame list (a concatenation of frames that
+   read_frame splits off and parse_block turns into (csize, data)), every block offset at a frame
+   boundary or at/after the end, every in-block offset, every previous state: same result, same
+   position told.  Together with c02_seek_then_read_to_end: denote f v defined => the seek over
+   the bytes succeeds and lands on the named byte. *)
+Theorem c02_seek_bytes_is_seek_at_boundaries : forall fb f st v r,
+  SeekBytesBoundary.encodes Inflate.inflate fb f -> drop_to f 0 (vcomp v) = Some r ->
+  seek_bytes Inflate.inflate fb (blk_of st) v
+  = (snd (seek true f st v), virtual_position (fst (seek true f st v))).
+Proof. exact (SeekBytesBoundary.seek_bytes_boundary Inflate.inflate SeekBytesProofs.inflate_len). Qed.
+Print Assumptions c02_seek_bytes_is_seek_at_boundaries.
+
+Example c02_example_encodes :
+  SeekBytesBoundary.encodes Inflate.inflate Frame.eof_block [mkFrame 28 []].
+Proof. exact SeekBytesBoundary.encodes_eof. Qed.
